@@ -210,10 +210,13 @@ func (n *networkService) AllocIP(ctx context.Context, r *rpc.AllocIPRequest) (*r
 		} else {
 			req := eni.NewLocalIPRequest()
 
-			if len(oldRes.GetResourceItemByType(daemon.ResourceTypeENI)) == 1 {
-				old := oldRes.GetResourceItemByType(daemon.ResourceTypeENI)[0]
-
-				setRequest(req, old)
+			old := oldRes.GetResourceItemByType(daemon.ResourceTypeENI)
+			if len(old) == 0 {
+				// what the pool hands out is recorded as eniIp in every mode
+				old = oldRes.GetResourceItemByType(daemon.ResourceTypeENIIP)
+			}
+			if len(old) == 1 {
+				setRequest(req, old[0])
 			}
 			resourceRequests = append(resourceRequests, req)
 		}
